@@ -443,10 +443,14 @@ def _save_im(filename, im, depth=8):
     else:
         full_scale = 1
 
-    if metadat and full_scale is not None and '_image_scaling' in metadat:
+    if metadat and full_scale is not None:
         # record which stored number the upper end of the scaling interval
         # was mapped to, so that load can undo the scaling exactly
-        scaling = yaml.safe_load(metadat['_image_scaling'])
+        scaling = yaml.safe_load(metadat.get('_image_scaling', 'null'))
+        if scaling is None and full_scale != 1:
+            # an unscaled image with values up to 1 was stretched to the
+            # full range of the integer format just above
+            scaling = (0, 1)
         if scaling is not None:
             metadat['_image_scaling'] = yaml.dump(
                 [float(scaling[0]), float(scaling[1]), full_scale])
